@@ -144,11 +144,12 @@ def outcome_eq(a, b):
         return ("exc", type(e).__name__)
 
 
+MIXED_KEY = "MyTag"  # keys are stored as given: a mixed-case key is a key of its own
 FOREIGN_ALIAS = {"STOPS": "FREEZES", "BGCHANGES": "ANIMATIONS", "NOTES": "NOTES2"}
 
 
 def ops_for(std, alias, other, values, extra_key=None):
-    keys = [std] + ([alias] if alias else []) + ([extra_key] if extra_key else []) + [other]
+    keys = [std] + ([alias] if alias else []) + ([extra_key] if extra_key else []) + [other, MIXED_KEY]
     ops = [("aget",), ("adel",)] + [("aset", v) for v in values]
     for k in keys:
         ops += [("kget", k), ("kdel", k), ("kin", k)] + [("kset", k, v) for v in values]
@@ -562,7 +563,7 @@ def explore_shard(acc, shard):
 def explore(run):
     shards = []
     values = ("p", "q", "")
-    values2 = ("x:y", "0", "\n")
+    values2 = ("x:y", "0", "a\r\nb")
     classes = {"SMSimfile": SMSimfile, "SSCSimfile": SSCSimfile, "SSCChart": SSCChart}
     for okind, cls in classes.items():
         for attr, std in sorted(known_properties(cls).items()):
